@@ -63,6 +63,13 @@ func scenarios(c *vlib.Ctx) []*slib.Scn {
 			add(modules.C05Params{Graph: "single", Items: items, ItemPts: 0, StopFn: "none", Trigger: trig, Holder: true}, bound)
 		}
 	}
+	// Shutdown is called by two threads at once: neither call returns before the stop routine and the work have returned
+	for _, graph := range []string{"single", "chain"} {
+		for _, items := range [][]string{nil, {"worker"}, {"task"}, {"mt-medium"}} {
+			add(modules.C05Params{Graph: graph, Items: items, ItemPts: 1, StopFn: "plain", Trigger: "shutdown", Second: true}, bound)
+		}
+		add(modules.C05Params{Graph: graph, Items: []string{"worker"}, ItemPts: 0, StopFn: "none", Trigger: "shutdown", Second: true}, bound)
+	}
 	// a task that is queued right before the stop is triggered: it is somewhere between the queue and its execution when the stop begins
 	for _, trig := range []string{"shutdown", "disable"} {
 		for _, graph := range []string{"single", "chain"} {
